@@ -222,7 +222,8 @@ def r10_3(ctx, rep, roles, P="C10"):
                 else:
                     contains = None
                     for c in row.cond:
-                        if c[0] == "truth" and c[1][0] == "call" and "contains_key" in c[1][1] and c[1][2][0] == lv.DEAD:
+                        if c[0] == "truth" and c[1][0] == "call" and "contains_key" in c[1][1] and (
+                                c[1][2][0] == lv.DEAD or T.last_field(c[1][2][0]) == (FD, "dead_nodes")):
                             contains = c[2]
                     good = len(lr) == 1 and not li and not dr and (len(di) == (0 if contains else 1)) and contains is not None
                 if not good:
